@@ -3,6 +3,7 @@
 //!   ohharness run <suite> <quick|thorough> <seed>   generate operations and execute them
 //!   ohharness exec                                   execute the operation lines read on stdin
 mod ast;
+mod c14;
 mod c19;
 mod c20;
 mod ev;
@@ -24,6 +25,8 @@ fn exec_line(line: &str) -> String {
         c19::exec(op, args)
     } else if op.starts_with("ev.") {
         ev::exec(op, args)
+    } else if op.starts_with("sch.") {
+        c14::exec(op, args)
     } else if op.starts_with("usv.") {
         c20::exec(op, args)
     } else {
@@ -56,6 +59,7 @@ fn main() {
                 "c19" => c19::gen(tier, &mut rng, &mut emit),
                 "ev" => ev::gen(tier, &mut rng, &mut emit),
                 "c20" => c20::gen(tier, &mut rng, &mut emit),
+                "c14" => c14::gen(tier, &mut rng, &mut emit),
                 _ => {
                     eprintln!("unknown suite {suite}");
                     std::process::exit(2);
